@@ -176,6 +176,31 @@ theorem C15_first_occurrences_survive {mode : Mode} {req : Option (List Nat)} {d
   cases this
   exact hm'
 
+/-! ### Histories: several alignments of the same dict
+
+Every theorem above is about ONE call on ARBITRARY lists, so it applies to each call of a history with `d` the
+lists the previous call left (fabricated messages of earlier calls included).  The two statements below say that
+a history is nothing but that: no call raises, and the result is the one-call specification applied call by
+call - there is no state other than the message lists (in particular none derived from a numeric conversion
+made before or between the calls). -/
+
+/-- A history of calls never raises and computes the one-call specification applied step by step. -/
+theorem C15_history_refines_spec (calls : List Call) (d : List Entry) :
+    alignSeq calls d = .ok (specAlignSeq calls d) := by
+  induction calls generalizing d with
+  | nil => rfl
+  | cons c cs ih =>
+    have h : alignSeq (c :: cs) d = (align c.mode c.req d).bind (alignSeq cs) := by
+      simp only [alignSeq, List.foldlM_cons]; rfl
+    rw [h, align_eq_spec]
+    exact ih (specAlign c.mode c.req d)
+
+/-- Appending a call to a history: the new call sees exactly the lists the history produced. -/
+theorem C15_history_step (calls : List Call) (c : Call) (d : List Entry) :
+    alignSeq (calls ++ [c]) d = (alignSeq calls d).bind (align c.mode c.req) := by
+  rw [C15_history_refines_spec, C15_history_refines_spec]
+  simp only [specAlignSeq, List.foldl_append, List.foldl_cons, List.foldl_nil, Except.bind, align_eq_spec]
+
 /-! ### The hypotheses are satisfiable, the statements are not vacuous -/
 
 /-- three types with P1 time (one requested but unsorted with a repeated time and a NaN), one without -/
@@ -196,6 +221,20 @@ example : align .insert (some [1, 2, 3]) C15_demo = .ok
       { key := 2, hasP1 := true, msgs := [.fab (some 1), .orig (some 2) 0, .orig (some 3) 1, .orig (some 5) 2, .fab none] },
       { key := 3, hasP1 := false, msgs := [.orig none 0] },
       { key := 4, hasP1 := true, msgs := [.orig (some 9) 0] } ] := by rfl
+
+/-- DROP over types 1, 2 and then DROP over types 1, 4: type 1 ends empty, type 2 keeps the first result -/
+example : alignSeq [⟨.drop, some [1, 2]⟩, ⟨.drop, some [1, 4]⟩] C15_demo = .ok
+    [ { key := 1, hasP1 := true, msgs := [] },
+      { key := 2, hasP1 := true, msgs := [.orig (some 2) 0, .orig (some 3) 1] },
+      { key := 3, hasP1 := false, msgs := [.orig none 0] },
+      { key := 4, hasP1 := true, msgs := [] } ] := by rfl
+
+/-- INSERT over types 2, 4 and then DROP over types 1, 2: the message fabricated by the first call does not survive -/
+example : alignSeq [⟨.insert, some [2, 4]⟩, ⟨.drop, some [1, 2]⟩] C15_demo = .ok
+    [ { key := 1, hasP1 := true, msgs := [.orig (some 2) 4, .orig (some 3) 0] },
+      { key := 2, hasP1 := true, msgs := [.orig (some 2) 0, .orig (some 3) 1] },
+      { key := 3, hasP1 := false, msgs := [.orig none 0] },
+      { key := 4, hasP1 := true, msgs := [.fab (some 2), .fab (some 3), .fab (some 5), .orig (some 9) 0] } ] := by rfl
 
 example : InAll (some [1, 2, 3]) C15_demo 2 ∧ ¬ InAll (some [1, 2, 3]) C15_demo 1 ∧ InSome (some [1, 2, 3]) C15_demo 5 ∧
     AnyNaN (some [1, 2, 3]) C15_demo := by
